@@ -20,7 +20,7 @@ SPE = 2  # slots per epoch of the virtual beacon network, the same in every Slas
 def _tier(tier):
     if tier == "quick":
         return dict(mc="Slashing_quick.cfg", mc_stop=900, cover="Slashing_cover.cfg", max_leaves=1500, extra_edges=700,
-                    sim=("Slashing_sim.cfg", 150, 40), record_runs=150, conc_rounds=40, race=False,
+                    sim=("Slashing_sim.cfg", 300, 40), record_runs=150, conc_rounds=25, race=False,
                     apalache=False, per_invariant=False, inert_small=True)
     return dict(mc="Slashing_thorough.cfg", mc_stop=1500, cover="Slashing_cover_thorough.cfg", max_leaves=12000,
                 extra_edges=8000, sim=("Slashing_sim.cfg", 4000, 60), record_runs=3000, conc_rounds=500, race=True,
@@ -34,6 +34,7 @@ ATTACKS = [
     ("Slashing_attack_sourceNotChecked.cfg", "source epoch not compared with the record"),
     ("Slashing_attack_noUpdate.cfg", "record not raised when signing"),
     ("Slashing_attack_bumpFromStaleClock.cfg", "add / reactivation bumps from a clock one epoch behind"),
+    ("Slashing_attack_bumpFromStaleSlot.cfg", "add / reactivation bumps from a clock one slot behind"),
     ("Slashing_attack_signWhenMissing.cfg", "missing record treated as nothing signed yet"),
     ("Slashing_attack_releaseBeforePersist.cfg", "signature handed out before the record is durable"),
     ("Slashing_attack_blockSlotLT.cfg", "block slot compared with < instead of <="),
@@ -51,6 +52,17 @@ DEVIATIONS = [
     ("Slashing_fault_rempty.cfg", "stored record value is empty (code as written)"),
 ]
 CLAUSES = ["NoDoubleVote", "NoSurround", "NoDoubleBlock", "RefuseWhenUnknown"]
+BREAKS = {   # which clauses of the property each weakening breaks (measured with the thorough tier)
+    "Slashing_attack_targetLT.cfg": ["NoDoubleVote"],
+    "Slashing_attack_sourceNotChecked.cfg": ["NoSurround"],
+    "Slashing_attack_noUpdate.cfg": ["NoDoubleVote", "NoSurround", "NoDoubleBlock"],
+    "Slashing_attack_bumpFromStaleClock.cfg": ["NoDoubleVote", "NoSurround", "NoDoubleBlock"],
+    "Slashing_attack_bumpFromStaleSlot.cfg": ["NoDoubleVote", "NoSurround", "NoDoubleBlock"],
+    "Slashing_attack_signWhenMissing.cfg": ["NoDoubleVote", "NoSurround", "NoDoubleBlock", "RefuseWhenUnknown"],
+    "Slashing_attack_releaseBeforePersist.cfg": ["NoDoubleVote", "NoSurround", "NoDoubleBlock"],
+    "Slashing_attack_blockSlotLT.cfg": ["NoDoubleBlock"],
+    "Slashing_fault_rempty.cfg": ["NoDoubleBlock", "RefuseWhenUnknown"],
+}
 
 
 _T = [0.0]
@@ -95,10 +107,12 @@ def _attack_runs(T):
             src = src.replace("MaxSlot = 7", "MaxSlot = 5")
         jobs.append((cfg.replace(".cfg", ""), "inert:" + desc, cfg.replace(".cfg", "_run.cfg"), src))
     # one counterexample per violated clause of the property, not only the first one TLC meets
-    per = ATTACKS[:7] + DEVIATIONS if T["per_invariant"] else [ATTACKS[4]] + DEVIATIONS
-    for cfg, desc in per:
+    # (quick: the clauses each weakening is known to break; thorough: all four, the others are exhausted)
+    for cfg, desc in ATTACKS[:8] + DEVIATIONS:
         src = open(os.path.join(vlib.SPEC, cfg)).read()
-        for inv in CLAUSES:
+        for inv in (CLAUSES if T["per_invariant"] else BREAKS[cfg]):
+            if cfg.startswith("Slashing_fault") and inv not in BREAKS[cfg]:
+                continue   # 666k states each to learn that an empty ATTESTATION record is refused
             name = cfg.replace(".cfg", "") + "_" + inv
             kind = ("attack:deviation:" if cfg.startswith("Slashing_fault") else "attack:") + desc + " / " + inv
             jobs.append((name, kind, name + ".cfg", _only(src, [inv])))
@@ -146,8 +160,20 @@ def _select(behs, cap, seed):
         return behs
     groups = {}
     for b in behs:
-        a = b["steps"][-1]["act"]
-        key = (a.get("name"), a.get("res"), (a.get("fault") or {}).get("k"), (a.get("fault") or {}).get("at"))
+        acts = [st["act"] for st in b["steps"]]
+        a = acts[-1]
+        # a signature was released, later a record was rebuilt or removed, and the behaviour ends in a signing request:
+        # the histories where a lowered record would show
+        rebuilt = False
+        if a.get("name") in ("SignAtt", "SignBlk"):
+            seen = False
+            for x in acts[:-1]:
+                if x.get("rel"):
+                    seen = True
+                elif seen and x.get("name") in ("AddShare", "Reactivate", "RemoveShare") and x.get("res") in ("ok", "crash"):
+                    rebuilt = True
+        key = (a.get("name"), a.get("res"), (a.get("fault") or {}).get("k"), (a.get("fault") or {}).get("at"), rebuilt,
+               a.get("d") if rebuilt else None)
         groups.setdefault(key, []).append(b)
     rng = random.Random(seed)
     for g in groups.values():
